@@ -72,7 +72,7 @@ func c11Errors() []struct {
 
 func c11(r *mon.Run) {
 	r.Rule = "E = one representative per error kind and origin (invalid type, invalid arity, unknown function, zero slice step, by-expression key error, error inside an expref body, error inside a filter condition, ill-typed variadic argument) placed in every single-hole context of the grammar (33 contexts: every operator side, every projection kind as left side and as right-hand side / condition, function arguments, expression-reference bodies, multi-select members), " +
-		"composed to depth 1 and 2 (3 in thorough) and evaluated on 5 documents that make the hole evaluated or legitimately skipped (left of || true-like, projection over [] / over a non-array, filter never true). Oracle: the model evaluates, so 'error expected' is computed. Non-trivial = distinct (context path, error kind, document) with both classes (error expected / legitimately hidden) counted."
+		"composed to depth 1 and 2 (3 in thorough) and evaluated on 5 documents that make the hole evaluated or legitimately skipped (left of || true-like, projection over [] / over a non-array, filter never true). plus 460 expressions in which only some elements of a projection / map / sort_by / max_by raise the error (first, middle, last, none), with an index, slice, pipe or function applied to the projection. Oracle: the model evaluates, so 'error expected' is computed. Non-trivial = distinct (context path, error kind, document) with both classes (error expected / legitimately hidden) counted."
 	r.Exhaustive = true
 	r.Floor = 1000
 	r.Assumptions = []string{"which operands are 'legitimately not evaluated' is what the reference evaluator does: right side of a short-circuited || / &&, right-hand side or condition of a projection over zero elements or over a left side of the wrong type"}
@@ -141,6 +141,78 @@ func c11(r *mon.Run) {
 				t.Sample(map[string]interface{}{"expression": expr, "document": doc, "context": path, "error": ek, "expected": expectedString(res)})
 			}
 		}}
+	// errors that only SOME elements raise: an early exit, a first-match shortcut or a per-element
+	// cache can swallow the error of a later (or earlier) element
+	var lateTrees []*gen.Expr
+	absA := func() *gen.Expr { return gen.Func("abs", gen.Field("a")) }
+	gt0 := func() *gen.Expr { return gen.Cmp(">", absA(), gen.LitJSON("0")) }
+	x := func() *gen.Expr { return gen.Field("x") }
+	idx := func(e *gen.Expr, n int64) *gen.Expr { return gen.Chain(gen.Paren(e), gen.StIndex(n)) }
+	pipeIdx := func(e *gen.Expr, n int64) *gen.Expr { return gen.Pipe(e, gen.Chain(nil, gen.StIndex(n))) }
+	fn := gen.StFunc("abs", gen.Field("a"))
+	proj := func(steps ...gen.Step) *gen.Expr { return gen.Chain(x(), steps...) }
+	add := func(e *gen.Expr) { lateTrees = append(lateTrees, e) }
+	base := []*gen.Expr{
+		proj(gen.StListStar(), fn), proj(gen.StFilter(gt0())), proj(gen.StFilter(gt0()), gen.StField("k")), proj(gen.StFlatten(), fn), proj(gen.StSliceS("0", "2", ""), fn), proj(gen.StSliceS("1", "", ""), fn),
+		proj(gen.StSliceS("", "", "-1"), fn), gen.Chain(gen.Field("o"), gen.StStar(), fn), proj(gen.StListStar(), gen.StMultiList(absA())), proj(gen.StListStar(), gen.StMultiHash(keyA("v"), []*gen.Expr{absA()})),
+		proj(gen.StFilter(gen.Cmp("<", gen.Field("k"), gen.LitJSON("3"))), fn), proj(gen.StFilter(gen.Cmp(">", gen.Field("k"), gen.LitJSON("1"))), fn), proj(gen.StFilter(gen.Cmp("!=", gen.Field("k"), gen.LitJSON("2"))), fn),
+		gen.Func("map", gen.ExpRef(absA()), x()), gen.Func("sort_by", x(), gen.ExpRef(absA())), gen.Func("max_by", x(), gen.ExpRef(absA())), gen.Func("min_by", x(), gen.ExpRef(absA())),
+		proj(gen.StListStar(), gen.StFunc("not_null", absA(), gen.Field("k"))), proj(gen.StFilter(gen.Or(gen.Cmp("==", gen.Field("a"), gen.LitJSON("1")), gen.Cmp(">", absA(), gen.LitJSON("5"))))),
+		proj(gen.StFilter(gen.And(gen.Cmp("==", gen.Field("k"), gen.LitJSON("1")), gt0()))), proj(gen.StListStar(), gen.StMultiList(gen.Field("k"), absA()), gen.StIndex(0)),
+		gen.Chain(gen.Field("y"), gen.StListStar(), gen.StListStar(), fn), gen.Chain(gen.Field("y"), gen.StFlatten(), fn), gen.Chain(gen.Field("y"), gen.StListStar(), gen.StIndex(0), fn),
+		gen.Chain(gen.Field("y"), gen.StIndex(0), gen.StListStar(), fn), gen.Chain(gen.Field("y"), gen.StListStar(), gen.StFilter(gt0())), proj(gen.StListStar(), gen.StField("k")),
+	}
+	for _, b := range base {
+		add(b)
+		for _, n := range []int64{0, 1, -1} {
+			add(pipeIdx(b, n))
+			add(idx(b, n))
+		}
+		add(gen.Pipe(b, gen.Chain(nil, gen.StIndex(0), gen.StField("k"))))
+		add(gen.Pipe(b, gen.Func("length", gen.Current())))
+		add(gen.Pipe(b, gen.Chain(nil, gen.StSliceS("0", "1", ""))))
+		add(gen.Chain(gen.Paren(b), gen.StSliceS("", "1", "")))
+		add(gen.Func("not_null", b))
+		add(gen.Func("length", b))
+		add(gen.Or(b, gen.LitJSON("1")))
+		add(gen.MultiList(b, gen.Field("k")))
+		add(gen.Or(pipeIdx(b, 0), gen.LitJSON("9")))
+	}
+	add(gen.MultiList(gen.Chain(x(), gen.StIndex(0), fn), gen.Chain(x(), gen.StIndex(2), fn)))
+	add(gen.MultiList(gen.Chain(x(), gen.StIndex(0), fn), gen.Chain(x(), gen.StIndex(1), fn)))
+	add(gen.Func("sum", proj(gen.StListStar(), fn)))
+	var lateDocs []interface{}
+	for bad := -1; bad < 4; bad++ {
+		mk := func(n int) []interface{} {
+			arr := make([]interface{}, n)
+			for i := range arr {
+				var a interface{} = float64(i + 1)
+				if i == bad {
+					a = "s"
+				}
+				arr[i] = map[string]interface{}{"a": a, "k": float64(i + 1)}
+			}
+			return arr
+		}
+		xs := mk(4)
+		o := map[string]interface{}{"p": xs[0], "q": xs[1], "r": xs[2]}
+		lateDocs = append(lateDocs, map[string]interface{}{"x": xs, "o": o, "y": []interface{}{mk(2), mk(4)}, "k": float64(7)})
+	}
+	LD := len(lateDocs)
+	late := mon.Workload{Name: "errors-in-some-elements", N: len(lateTrees) * LD,
+		Describe: func(i int) string { return gen.Spell(lateTrees[i/LD]) + " on " + ref.Canon(lateDocs[i%LD]) },
+		Do: func(i int, t *mon.Tally) {
+			tree, doc := lateTrees[i/LD], lateDocs[i%LD]
+			expr := gen.Spell(tree)
+			cx := &caseCtx{r, t, "errors-in-some-elements", i}
+			res, _, _ := cx.runBoth(tree, expr, doc)
+			t.NontrivialDistinct(1)
+			if isErr(res) {
+				t.Count("element-dependent: error expected")
+			} else {
+				t.Count("element-dependent: value expected (the erroring element is not evaluated)")
+			}
+		}}
 	nr := tierPick(r, 40000, 1000000)
 	rnd := mon.Workload{Name: "random-erroring-trees", N: nr,
 		Do: func(i int, t *mon.Tally) {
@@ -160,5 +232,5 @@ func c11(r *mon.Run) {
 				t.Count("random: no error raised")
 			}
 		}}
-	r.Exec(w, rnd)
+	r.Exec(w, late, rnd)
 }
